@@ -235,7 +235,7 @@ func lexEscapes(name, target string) bool {
 
 func unpackAlphabet(full bool) []tarx.Entry {
 	var es []tarx.Entry
-	regNames := []string{"a", "a/b", "y", "y/x", "a/up", "/abs", "../dst-evil/x", "../dst-evil/t", "a/../../dst-evil/x", "../secret", ".", "nx/../y/x", "nx/../y", "/../dst-evil/x", "a//b", "./y/./x"}
+	regNames := []string{"a", "a/b", "y", "y/x", "a/up", "/abs", "../dst-evil/x", "../dst-evil/t", "a/../../dst-evil/x", "../secret", ".", "nx/../y/x", "nx/../y", "/../dst-evil/x", "a//b", "./y/./x", "..a", ".../x"}
 	dirNames := []string{"a/", "a", "y/", "a/b/", "a/up/", "../dst-evil/", "../dst-evil/x/", ".", "nx/../y/", "nx/../y/x/"}
 	linkNames := []string{"a", "y", "a/up", "a/b", "y/x", "/abs", "../dst-evil/x", "nx/../y/x", "y/", "a/up/.", "y/a/up"}
 	targets := []string{"a", "a/b", "..", ".", "../..", "a/up/..", "a/up/../secret", "../dst-evil", "../dst-evil/t", "../secret", "<DST>/a", "<P>/secret", "../allowed/f"}
